@@ -271,11 +271,12 @@ impl Check for ArpResolution {
                     }
                 }
                 (Err(()), Some(o)) => {
-                    // must succeed if an exchange of this call's budget got through
+                    // must succeed if an exchange of this call's budget got through; the reply must have arrived strictly
+                    // before the call ended: in the instant in which the budget runs out the give-up may come first
                     let me = macs[c.0];
                     let got_through = arp_frames.iter().any(|(f, p)| {
                         p.oper == Operation::Request && f.sender == me && p.target_ip.to_u32() == t && !f.dropped && f.t >= r.start && f.t <= r.end && f.deliveries.iter().any(|d| d.0 == macs[o])
-                            && arp_frames.iter().any(|(g, q)| q.oper == Operation::Reply && g.sender == macs[o] && q.sender_ip.to_u32() == t && g.dest == Some(me) && !g.dropped && g.t >= f.t && g.deliveries.iter().any(|d| d.0 == me && d.1 <= r.end))
+                            && arp_frames.iter().any(|(g, q)| q.oper == Operation::Reply && g.sender == macs[o] && q.sender_ip.to_u32() == t && g.dest == Some(me) && !g.dropped && g.t >= f.t && g.deliveries.iter().any(|d| d.0 == me && d.1 < r.end))
                     });
                     ensure!(!got_through, "success_when_exchange_gets_through", "failed_despite_exchange", "call {id}: resolving {} failed although a request reached its owner (machine {o}) and the reply reached the resolver within the call", Ipv4Address::from(t));
                 }
